@@ -450,12 +450,17 @@ pub fn scaled_spec(kind: usize, k: usize, seed: u16) -> Spec {
             (k + 3, nts, 0)
         }
         1 => {
-            // A_i -> A_{i+1}; A_{k-1} -> t0 | t1 A_0
-            let mut nts = vec![];
+            // S -> B A_0; B -> t0; A_i -> A_{i+1}; A_{k-1} -> t0 | t1 A_0      (S = 0, B = 1, A_i = i + 2)
+            // the chain is declared top-down and its head follows another nonterminal, so FIRST(A_0) is really
+            // consulted and needs k passes of a fixpoint that sweeps the rules in declaration order
+            let mut nts = vec![
+                SNt { is_enum: false, variants: vec![fs(b, &[N(1), N(2)])] },
+                SNt { is_enum: false, variants: vec![fs(b, &[T(0)])] },
+            ];
             for i in 0..k - 1 {
-                nts.push(SNt { is_enum: false, variants: vec![fs(b, &[N(i + 1)])] });
+                nts.push(SNt { is_enum: false, variants: vec![fs(b, &[N(i + 3)])] });
             }
-            nts.push(SNt { is_enum: true, variants: vec![fs(b, &[T(0)]), fs(b, &[T(1), N(0)])] });
+            nts.push(SNt { is_enum: true, variants: vec![fs(b, &[T(0)]), fs(b, &[T(1), N(2)])] });
             (2, nts, 0)
         }
         2 => {
